@@ -223,10 +223,48 @@ class Chart:
 # ------------------------------------------------------------------ R3 shaping
 
 class Shaper:
-    def __init__(self, rg, inp, keep_all_tokens=False, maybe_placeholders=True, positions=False):
+    def __init__(self, rg, inp, keep_all_tokens=False, maybe_placeholders=True, positions=False, spans=False):
         self.rg, self.inp = rg, inp
         self.keep_all, self.ph, self.positions = keep_all_tokens, maybe_placeholders, positions
+        self.spans = spans       # append [start, end] of everything the node's rule matched (filtered tokens included)
         self.fired = set()       # which shaping rules were applied (for the evidence)
+
+    def span_of(self, d, token_collapse=False):
+        """(start, end) offsets of the first / last token below derivation node d, filtered ones included.
+        token_collapse: model of finding F-C06-1 - a ?-rule that is replaced by a single *token* cannot carry the
+        filtered tokens it matched next to it, so only that token's own span reaches the parent."""
+        if d[0] == 't':
+            return self.inp.leaf_span(d[3], d[4])
+        if token_collapse:
+            nt = self.rg.nts[d[1]]
+            if nt.kind == 'rule' and '?' in nt.mods and not nt.prods[d[2]].alias and not nt.display.startswith('_'):
+                saved, self.spans = self.spans, False
+                try:
+                    kids = self.contrib(d, False)
+                finally:
+                    self.spans = saved
+                if len(kids) == 1 and kids[0] is not None and kids[0][0] == 'T':
+                    leaves = []
+                    self._kept_leaves(d, nt.keep, leaves)
+                    if len(leaves) == 1:
+                        return self.inp.leaf_span(leaves[0][3], leaves[0][4])
+        lo = hi = None
+        for c in d[3]:
+            sp = self.span_of(c, token_collapse)
+            if sp is not None:
+                lo = sp[0] if lo is None else min(lo, sp[0])
+                hi = sp[1] if hi is None else max(hi, sp[1])
+        return None if lo is None else (lo, hi)
+
+    def _kept_leaves(self, d, keep, out):
+        if d[0] == 't':
+            if not self.filtered(d, keep):
+                out.append(d)
+            return
+        nt = self.rg.nts[d[1]]
+        k = nt.keep if nt.kind == 'rule' else keep
+        for c in d[3]:
+            self._kept_leaves(c, k, out)
 
     def tok(self, leaf):
         _, tid, anon, s, j = leaf
@@ -287,6 +325,9 @@ class Shaper:
             self.fired.add('alias')
         if nt.display != nt.name:
             self.fired.add('template-instance')
+        if self.spans:
+            sp = self.span_of(d, self.spans == 'token-collapse')
+            return [['N', prod.alias or nt.display, kids, list(sp) if sp else None]]
         return [['N', prod.alias or nt.display, kids]]
 
     def shape(self, d):
